@@ -156,6 +156,7 @@ var ocspAlphabet = []string{
 	"good", "revoked", "unknown",
 	"good-delegate-eku", "revoked-delegate-eku", "good-delegate-eku-and-more",
 	"good-delegate-noeku", "good-delegate-noeku-ext", "good-self-signed-by-leaf", "good-embedded-issuer",
+	"good-self-claims-issuer-id", "good-sibling-claims-issuer-id", "good-delegate-eku-claims-issuer-id",
 	"good-unrelated-key", "good-embedded-foreign",
 	"good-expired", "good-no-nextupdate", "revoked-expired", "good-thisupdate-future",
 	"good-other-serial",
@@ -167,7 +168,7 @@ var ocspAlphabet = []string{
 }
 
 // representative classes for the all-sequences sweep of the quick tier
-var ocspCore = []string{"good", "revoked", "unknown", "good-delegate-eku", "good-delegate-noeku", "good-self-signed-by-leaf",
+var ocspCore = []string{"good", "revoked", "unknown", "good-delegate-eku", "good-delegate-noeku", "good-self-claims-issuer-id",
 	"good-expired", "revoked-inv-after", "err-trylater", "http-500", "transport-error", "garbage"}
 
 func (c *ocspCtx) behaviour(label string) *httpBehaviour {
@@ -204,6 +205,15 @@ func (c *ocspCtx) behaviour(label string) *httpBehaviour {
 		spec.InvDate = &t
 	case "good-self-signed-by-leaf":
 		spec.Signer, spec.Embed = c.leaf, c.leaf.Cert
+	case "good-self-claims-issuer-id":
+		// signed by the checked certificate, which is embedded, while the ResponderID names the issuer
+		spec.Signer, spec.Embed, spec.ResponderIDOf = c.leaf, c.leaf.Cert, c.issuer.Cert
+	case "good-sibling-claims-issuer-id":
+		d := c.pki.responder(c.issuer, "noeku")
+		spec.Signer, spec.Embed, spec.ResponderIDOf = d, d.Cert, c.issuer.Cert
+	case "good-delegate-eku-claims-issuer-id":
+		d := c.pki.responder(c.issuer, "eku")
+		spec.Signer, spec.Embed, spec.ResponderIDOf = d, d.Cert, c.issuer.Cert
 	case "good-embedded-issuer":
 		spec.Embed = c.issuer.Cert
 	case "good-unrelated-key":
@@ -366,12 +376,15 @@ type crlCtx struct {
 var crlAlphabet = []string{
 	"clean", "lists-cert", "lists-other", "wrong-signer", "corrupt-sig", "expired", "no-nextupdate", "crit-unknown-ext", "noncrit-unknown-ext", "idp-critical",
 	"delta-ok", "delta-num-eq", "delta-num-less", "delta-ind-eq", "delta-ind-plus1", "delta-ind-minus1", "delta-no-indicator",
+	// base number is 5: the whole boundary grid of (delta number, indicator)
+	"delta-n3-i2", "delta-n3-i3", "delta-n3-i4", "delta-n4-i3", "delta-n4-i4", "delta-n4-i5", "delta-n5-i3", "delta-n5-i4", "delta-n5-i5", "delta-n5-i6",
+	"delta-n6-i4", "delta-n6-i5", "delta-n6-i6", "delta-n6-i7", "delta-n7-i5", "delta-n7-i6", "delta-n7-i7", "delta-n8-i6", "delta-n9-i8",
 	"delta-bad-indicator", "delta-wrong-signer", "delta-expired", "delta-no-nextupdate", "delta-crit-unknown-ext", "delta-lists-cert", "base-lists-delta-removes",
 	"base-no-number-delta", "delta-no-number", "both-no-number", "base-no-number",
 	"fetch-error", "entry-crit-ext", "entry-crit-ext-other-serial", "hold", "hold-then-remove",
 }
 
-var crlCore = []string{"clean", "lists-cert", "wrong-signer", "expired", "no-nextupdate", "crit-unknown-ext", "delta-ok", "delta-num-eq", "delta-ind-plus1", "delta-lists-cert", "fetch-error", "entry-crit-ext"}
+var crlCore = []string{"clean", "lists-cert", "wrong-signer", "expired", "no-nextupdate", "crit-unknown-ext", "delta-ok", "delta-n5-i4", "delta-n7-i6", "delta-lists-cert", "fetch-error", "entry-crit-ext"}
 
 func (c *crlCtx) parse(der []byte) *x509.RevocationList {
 	l, err := x509.ParseRevocationList(der)
@@ -477,6 +490,12 @@ func (c *crlCtx) behaviour(label string) *fetchBehaviour {
 	case "hold-then-remove":
 		base.Entries = []EntrySpec{entry(6, c.now.Add(-3*time.Hour)), entry(8, c.now.Add(-2*time.Hour))}
 	default:
+		var n, i int64
+		if k, _ := fmt.Sscanf(label, "delta-n%d-i%d", &n, &i); k == 2 {
+			delta = mkDelta()
+			delta.Number, delta.Indicator = big.NewInt(n), big.NewInt(i)
+			break
+		}
 		panic("unknown crl behaviour " + label)
 	}
 	b := &corecrl.Bundle{BaseCRL: c.parse(buildCRL(c.issuer, base))}
@@ -577,6 +596,7 @@ type chainCase struct {
 	tags    []string
 	deprecatedValidate bool // use Revocation.Validate (deprecated API) instead of ValidateContext
 	realFetcher bool // CRLs served over the scripted transport through the real HTTPFetcher
+	cancel string // "", "before" (context cancelled before the call), "during" (cancelled when the first request arrives), "after"
 }
 
 var (
@@ -728,6 +748,31 @@ func runChainCase(r *Runner, cc chainCase, idx int) {
 			"cert":    map[string]any{"serial": serial, "ocsp": nn(l.ocspURLs), "crlDPs": nn(l.crlURLs), "hasFreshest": l.freshest},
 			"ocspEnv": ocspEnv, "crlEnv": crlEnv})
 	}
+	ctx, cancelCtx := context.WithCancel(context.Background())
+	defer cancelCtx()
+	if cc.cancel == "before" || cc.cancel == "during" {
+		// every exchange of this call ends with the context's error: abstractly, every source fails
+		for _, ci := range certsIn {
+			m := ci.(map[string]any)
+			for _, e := range m["ocspEnv"].(map[string]any) {
+				em := e.(map[string]any)
+				if em["kind"] == "http" {
+					em["ex"] = map[string]any{"err": "generic"}
+				}
+			}
+			ce := m["crlEnv"].(map[string]any)
+			for u := range ce {
+				ce[u] = map[string]any{"base": nil}
+			}
+		}
+		if cc.cancel == "before" {
+			cancelCtx()
+		} else {
+			var once sync.Once
+			tr.arrive = func(string) { once.Do(cancelCtx) }
+			ft.onFirst = func() { once.Do(cancelCtx) }
+		}
+	}
 	chain := make([]*x509.Certificate, len(iss))
 	for i := range iss {
 		chain[i] = iss[i].Cert
@@ -773,7 +818,10 @@ func runChainCase(r *Runner, cc chainCase, idx int) {
 			if e != nil {
 				panic(e)
 			}
-			results, err = v.ValidateContext(context.Background(), revocation.ValidateContextOptions{CertChain: chain, AuthenticSigningTime: st})
+			results, err = v.ValidateContext(ctx, revocation.ValidateContextOptions{CertChain: chain, AuthenticSigningTime: st})
+			if cc.cancel == "after" {
+				cancelCtx()
+			}
 		}
 	}()
 	ach := absChain(chain)
@@ -835,6 +883,11 @@ func runChainCase(r *Runner, cc chainCase, idx int) {
 	}
 	ft.mu.Unlock()
 	impl["traces"] = traces
+	if cc.cancel == "before" || cc.cancel == "during" {
+		// which requests were still started depends on when the cancellation lands; not compared
+		delete(impl, "traces")
+	}
+	c.Replay.(map[string]any)["cancel"] = cc.cancel
 	c.Replay.(map[string]any)["http_methods"] = methods
 	r.Submit(c)
 }
